@@ -26,3 +26,73 @@ PROPS["C03"] = {
         "evaluatePartitionStatus reads time.Now().Unix(); the harness samples the clock before and after each call and retries when the second ticked (sample-and-retry)",
     ],
 }
+
+_DECODE_STREAM = {"name": "decode", "trivial": r"^reqs=- alloc=ok", "hist_keys": ["alloc", "n"],
+                  "scale": {"quick": 1, "thorough": 12}, "seeds": {"quick": 1, "thorough": 3}}
+_DECODE_RULE = ("stream decode: structured offset-commit (key v0/v1, value v0/v1/v3 and unsupported versions) and group-metadata "
+                "(value v0-v3, 0-3 members, 0-3 topics x 0-4 partitions, null/empty/unicode/300-byte strings, extreme integers, duplicate topic "
+                "names) messages built by an independent Go encoder; for each: the message itself, with trailing bytes, its tombstone, every truncation "
+                "of key and value, every length/count field replaced by each of {min, -2, -1, 0, 1, 2, 2^24, max} and true length +-1, plus random byte "
+                "strings; 5 allow/deny configurations. Non-trivial = at least one storage request produced, a panic, or an allocation verdict other than ok.")
+
+PROPS["C06"] = {
+    "ready": False,
+    "lean_modules": ["BurrowVerif.Props.C06"],
+    "props_files": ["BurrowVerif/Props/C06.lean"],
+    "anchors": ["core/internal/consumer/kafka_client.go"],
+    "streams": [dict(_DECODE_STREAM, keys={"alloc", "reqs"})],
+    "rule": _DECODE_RULE,
+    "trusted": [
+        "allocation is modelled as the sizes requested through make/string conversion by wire-controlled values (theorem) and observed on the implementation as runtime.MemStats.TotalAlloc per message against the same bound + 16 KiB slack for logger and harness objects; the Go allocator's real footprint is not modelled",
+        "the real decoder runs in a child process with a 6 GiB address-space cap so that a ballooning allocation is an observable crash",
+    ],
+    "assumptions": ["bytes.Buffer / encoding/binary read semantics as modelled (short read = error), validated differentially"],
+}
+PROPS["C07"] = {
+    "ready": False,
+    "lean_modules": ["BurrowVerif.Props.C07"],
+    "props_files": ["BurrowVerif/Props/C07.lean"],
+    "anchors": ["core/internal/consumer/kafka_client.go", "core/protocol/storage.go"],
+    "streams": [dict(_DECODE_STREAM, keys={"reqs"})],
+    "rule": _DECODE_RULE,
+    "trusted": [
+        "the Kafka record formats are transcribed by hand into Spec/Wire.lean (no broker offline); the only Kafka-authored bytes available are the literal fixtures of the repository's tests, which are proved to be encodings in the sense of Spec.Wire",
+        "order of owner updates across topics of one member follows Go map iteration and is compared as a sorted multiset per message",
+        "TimeoutSendStorageRequest dropping a request after 1 s when storage is wedged is runtime behaviour, not modelled",
+    ],
+    "assumptions": [],
+}
+
+_STORAGE_RULE = ("stream storage: sequential histories against the real InMemoryStorage handlers (direct synchronous calls through the verif hook). "
+                 "Two profiles: 'ring' (one partition, ring sizes 1-5, 4-17 commits over 4-12 dense log positions so that out-of-order, equal and "
+                 "replayed positions are frequent, min-distance 0/1/2/5 s, timestamps mostly non-decreasing along the log, broker offset moving, a "
+                 "detail fetch after every commit) and 'general' (1-2 clusters, 6 group names incl. spaces/unicode, 3 topics, <=4 partitions, ring sizes 1-4, "
+                 "expire-group 3600/5/1 s with commit times on the expiry boundary, allow/deny regexps, all twelve request types incl. deletions of each kind "
+                 "followed by all fetches of everything, time shifting, out-of-range partitions). Non-trivial = an output other than ok / empty list / nil.")
+_STORAGE_STREAM = {"name": "storage", "trivial": r"^(ok( ~place=none)?|nil|list=-)$", "hist_keys": ["place"],
+                   "scale": {"quick": 4, "thorough": 40}, "seeds": {"quick": 1, "thorough": 4}}
+
+PROPS["C01"] = {
+    "lean_modules": ["BurrowVerif.Props.C01"],
+    "props_files": ["BurrowVerif/Props/C01.lean"],
+    "anchors": ["core/internal/storage/inmemory.go", "core/protocol/storage.go"],
+    "streams": [dict(_STORAGE_STREAM, keys={"lag", "bro"})],
+    "rule": _STORAGE_RULE,
+    "trusted": [
+        "offsets outside [0, 2^63) make the int64 subtraction wrap; the theorems carry that hypothesis and wrap_witness shows why; the model reproduces the wrap (toU64/wrap64) so the correspondence also covers it",
+        "ObservedTimestamp and the broker Timestamp are not modelled (no property constrains them)",
+    ],
+    "assumptions": ["addConsumerOffset / fetchConsumer read time.Now().Unix(): the harness waits away from second boundaries, samples the clock before and after, and discards (does not judge) a case in which the second ticked"],
+}
+PROPS["C02"] = {
+    "lean_modules": ["BurrowVerif.Props.C02"],
+    "props_files": ["BurrowVerif/Props/C02.lean"],
+    "anchors": ["core/internal/storage/inmemory.go"],
+    "streams": [dict(_STORAGE_STREAM, keys={"win"})],
+    "rule": _STORAGE_RULE,
+    "trusted": [
+        "container/ring is modelled as a fixed circular array addressed relative to the pointer (Model/Ring.lean), validated differentially",
+        "int64 overflow of minDistance*1000 and of timestamp differences is not modelled",
+    ],
+    "assumptions": PROPS["C01"]["assumptions"] if "C01" in PROPS else [],
+}
